@@ -61,7 +61,7 @@ def run(tier, seed):
         recs.append(o)
     path = chk.dir / "fuzz.ndjson"
     write_ndjson(path, recs)
-    res2 = run_tlc("Trace_Fuzz", "Trace_Fuzz", workdir=chk.dir, env={"TRACE_FILE": str(path)}, timeout=3000)
+    res2 = run_tlc("Trace_Fuzz", "Trace_Fuzz", workdir=chk.dir, env={"TRACE_FILE": str(path)}, timeout=3000, workers=1)
     chk.add_tlc(res2)
     if len(res2.records) != len(recs):
         raise MachineryError(f"{len(recs)} fuzz batches but {len(res2.records)} verdicts")
